@@ -290,6 +290,21 @@ func c13Gen(t *simrt.Tape, free bool) *c13Scenario {
 	if sc.Cmd == "bars2" {
 		// sub-keys: their order in the legend is kept sorted on insertion and must not depend on arrival
 		sc.Cols = pick(t.WRange(2, 5))
+		if t.WBool(1, 3) {
+			// many sub-keys (an insertion routine may change strategy with the size of the list)
+			sc.Cols = nil
+			n := t.WRange(13, 30)
+			for i := 0; i < n; i++ {
+				sc.Cols = append(sc.Cols, fmt.Sprintf("s%02d", (i*17)%n))
+			}
+			for len(sc.Keys) < 3 {
+				sc.Keys = append(sc.Keys, fmt.Sprintf("row%d", len(sc.Keys)))
+				sc.Counts = append(sc.Counts, 1)
+			}
+			for i := range sc.Counts {
+				sc.Counts[i] = n // every row has every sub-key once (see lines(): the sub-key index advances with the copy)
+			}
+		}
 	}
 	if sc.Cmd == "table" || sc.Cmd == "heatmap" || sc.Cmd == "spark" {
 		sc.Cols = pick(t.WRange(2, 5))
